@@ -4961,12 +4961,27 @@ def _c01_shard(k):
             k_ = int(os.environ["VERIF_C01_SCALE"])
             n4, n6 = n4 * k_, max(n6, 1000) * k_
         for s in range(k, n4, _C01_SHARDS):
-            yield {"seed": s, "depth": 4}
+            if s not in cat.KNOWN_FINDING_SEEDS:
+                yield {"seed": s, "depth": 4}
         for s in range(k, n6, _C01_SHARDS):
-            yield {"seed": 100000 + s, "depth": 6}
+            if 100000 + s not in cat.KNOWN_FINDING_SEEDS:      # those have their own contract
+                yield {"seed": 100000 + s, "depth": 6}
     cls = type(f"generated_programs_{k}", (_generated_programs_base,), {"domain": domain,
                "__doc__": _generated_programs_base.__doc__ + f" (shard {k} of {_C01_SHARDS})"})
     return contract("dask_array/_collection.py::Array.compute", spec=f"generated-programs-{k}", props=["C01"])(cls)
 
 
 _generated_shards = [_c01_shard(k) for k in range(_C01_SHARDS)]
+
+
+@contract("dask_array/_collection.py::Array.compute", spec="generated-programs-known-findings", props=["C01", "C09"])
+class generated_programs_known(_generated_programs_base):
+    """the generated programs that are recorded known findings, kept by seed: F53 (seed 109919, depth 6: take . any . repeat
+    . index[::-2, 1] . max raises 'Dimension 0 has 2 blocks, adjust_chunks specified with 1 blocks' with array.optimize-graph
+    False and computes NumPy's value with it on) and a second witness of F52 (seed 109436, depth 6: the ravel of a take
+    raises 'cannot reshape array of size 2 into shape (3,)')"""
+    scope = "seeds 109919 and 109436 of the program generator, depth 6"
+
+    def domain(tier, rng):
+        yield {"seed": 109919, "depth": 6}
+        yield {"seed": 109436, "depth": 6}
